@@ -1,5 +1,99 @@
+(* C04 - active_vertices_connected holds exactly for connected (or tree) active sets *)
 From Coq Require Import ZArith List Bool Arith.
-From Cspuz Require Import Graph.GraphModel Graph.ReachProofs Graph.Avc.
+From Cspuz Require Import Lib.PyErr Core.Expr Core.Program Core.Build
+  Graph.GraphModel Graph.ReachProofs Graph.Avc Graph.AvcCert Graph.AvcSem Graph.AvcProofs.
+Import ListNotations.
+Local Open Scope nat_scope.
+
+(* the constraints the auxiliary-variable encoding adds evaluate, under any
+   assignment, to the certificate checker; it declares n ranks in [0, n-1] and n
+   root flags and nothing else *)
+Theorem avc_eval : forall st acts g acyclic st',
+  post_avc st acts g acyclic false = Ok st' ->
+  vars st' = vars st ++ repeat (DInt 0 (Z.of_nat (nv g) - 1)) (nv g) ++ repeat DBool (nv g) /\
+  keys st' = keys st ++ repeat false (nv g) ++ repeat false (nv g) /\
+  exists cs, cons st' = cons st ++ cs /\
+    forall en, acts_defined en acts ->
+      forallb (holds gsem_avc en) cs =
+      cert_avc g acyclic (pattern en acts)
+               (fun j => ei en (next_id st + j)) (fun j => eb en (next_id st + nv g + j)).
+Proof. exact AvcSem.avc_eval. Qed.
+Print Assumptions avc_eval.
+
+(* an in-range certificate exists exactly when the specification holds *)
+Theorem avc_cert : forall g acyclic act,
+  wf_graph g = true -> 1 <= nv g ->
+  ((exists rank root, ranks_in_range g rank /\ cert_avc g acyclic act rank root = true)
+   <-> spec_avc acyclic g act).
+Proof. exact AvcCert.avc_cert. Qed.
+Print Assumptions avc_cert.
+
+(* non-acyclic: completable exactly for connected active sets, for every graph,
+   every is_active expression list over the caller's variables and every
+   assignment of those variables *)
+Theorem avc_exact : forall st acts g st' en,
+  wf_graph g = true -> fresh_below (next_id st) acts -> acts_defined en acts ->
+  post_avc st acts g false false = Ok st' ->
+  ((exists en', agree_below (next_id st) en en' /\
+                in_bounds_from en' (next_id st) (new_vars st st') = true /\
+                forallb (holds gsem_avc en') (new_cons st st') = true)
+   <-> connected g (pattern en acts)).
+Proof. exact avc_connected_exact. Qed.
+Print Assumptions avc_exact.
+
+(* acyclic=True: completable exactly when the active vertices induce a tree or are empty *)
+Theorem avc_acyclic_exact : forall st acts g st' en,
+  wf_graph g = true -> fresh_below (next_id st) acts -> acts_defined en acts ->
+  post_avc st acts g true false = Ok st' ->
+  ((exists en', agree_below (next_id st) en en' /\
+                in_bounds_from en' (next_id st) (new_vars st st') = true /\
+                forallb (holds gsem_avc en') (new_cons st st') = true)
+   <-> (connected g (pattern en acts) /\
+        (n_active g (pattern en acts) = 0 \/
+         induced_edges g (pattern en acts) + 1 = n_active g (pattern en acts)))).
+Proof. exact AvcProofs.avc_acyclic_exact. Qed.
+Print Assumptions avc_acyclic_exact.
+
+(* in terms of models of the whole solver state *)
+Theorem avc_exact_models : forall acyclic st acts g st' en,
+  wf_graph g = true ->
+  fresh_below (next_id st) acts -> fresh_below (next_id st) (cons st) -> acts_defined en acts ->
+  model_of gsem_avc en st ->
+  post_avc st acts g acyclic false = Ok st' ->
+  ((exists en', agree_below (next_id st) en en' /\ model_of gsem_avc en' st')
+   <-> spec_avc acyclic g (pattern en acts)).
+Proof. exact AvcProofs.avc_exact_models. Qed.
+Print Assumptions avc_exact_models.
+
+(* the array form = the graph form on the grid graph = orthogonal adjacency *)
+Theorem avc_grid : forall cfg st h w l acyclic ugp,
+  active_vertices_connected cfg st (AArr2 h w l) None acyclic ugp =
+    post_avc st l (grid_graph h w) acyclic (match ugp with Some p => p | None => cfg end) /\
+  wf_graph (grid_graph h w) = true /\ loop_free (grid_graph h w) = true /\
+  nv (grid_graph h w) = h * w /\
+  (forall a b, In b (nbrs (grid_graph h w) all_edges_ok a) <-> (grid_adj h w a b \/ grid_adj h w b a)).
+Proof. exact AvcProofs.avc_grid. Qed.
+Print Assumptions avc_grid.
+
+(* the native-operator form: one node whose operands decode to the caller's
+   graph and pattern; acyclic=True never takes this branch *)
+Theorem avc_primitive : forall st acts g st',
+  post_avc st acts g false true = Ok st' ->
+  length acts = nv g /\ vars st' = vars st /\ keys st' = keys st /\
+  exists e, cons st' = cons st ++ [e] /\
+    e = BNode G_AVC ([PyInt (Z.of_nat (nv g)); PyInt (Z.of_nat (length (edges g)))] ++ acts ++ flat_edges g) /\
+    forall en, acts_defined en acts ->
+      eval gsem_avc en e = Some (VB (connected_b g (fun v => nth v (map (holds gsem_avc en) acts) false))) /\
+      (wf_graph g = true -> (holds gsem_avc en e = true <-> connected g (pattern en acts))).
+Proof. exact AvcProofs.avc_primitive. Qed.
+Print Assumptions avc_primitive.
+
+Theorem avc_acyclic_ignores_primitive : forall st acts g prim,
+  post_avc st acts g true prim = post_avc st acts g true false.
+Proof. exact AvcProofs.avc_acyclic_ignores_primitive. Qed.
+Print Assumptions avc_acyclic_ignores_primitive.
+
+(* the executable specification used by the search is the relational one *)
 Theorem connected_b_decides : forall g act,
   wf_graph g = true -> (connected_b g act = true <-> connected g act).
 Proof. exact connected_b_spec. Qed.
